@@ -480,6 +480,13 @@ class DiffXReader(object):
                 'The length of the content (%s) is too large' % length,
                 linenum=self._linenum)
 
+        if not content:
+            # Either the length was 0 or we've hit the end of the file.
+            # There's no content, and so no trailing newline.
+            raise DiffXParseError(
+                'Expected a newline after content',
+                linenum=self._linenum)
+
         # First, determine the line endings that we're going to be working
         # with.
         if line_endings:
